@@ -91,6 +91,7 @@ func TestC06_StoredSignaturesAlwaysValid(t *testing.T) {
 		q2 := chain.TurnstoneQueue(c06Chain2)
 		// model: registered key per validator (history), key generation counter
 		keyGen := make([]int, n)
+		retiredKeys := map[int][]*ecdsa.PrivateKey{}
 		curKey := func(i int) string { return chain.EthAddr(c.Vals[i].EthKeys[c06Chain]).Hex() }
 		// signer address recorded at signing time: item -> validator -> address
 		signedWith := map[string]map[string]string{}
@@ -210,12 +211,20 @@ func TestC06_StoredSignaturesAlwaysValid(t *testing.T) {
 				}
 				m := ms[rapid.IntRange(0, len(ms)-1).Draw(t, "msg")]
 				i := rapid.IntRange(0, n-1).Draw(t, "val")
-				kind := rapid.SampledFrom([]string{"valid", "valid", "valid", "garbage", "otherKey", "staleBytes", "claimOtherAddress"}).Draw(t, "kind")
+				kind := rapid.SampledFrom([]string{"valid", "valid", "valid", "garbage", "otherKey", "staleBytes", "claimOtherAddress", "retiredKey"}).Draw(t, "kind")
 				bz, _ := m.GetBytesToSign(c.App.AppCodec())
 				key := c.Vals[i].EthKeys[c06Chain]
 				signedBy := curKey(i)
 				var sig []byte
+				if kind == "retiredKey" && len(retiredKeys[i]) == 0 {
+					kind = "valid"
+				}
 				switch kind {
+				case "retiredKey":
+					// a key the validator has replaced since (the last snapshot may still list it): no longer its registered key
+					old := retiredKeys[i][len(retiredKeys[i])-1]
+					sig = chain.EthSign(old, bz)
+					signedBy = chain.EthAddr(old).Hex()
 				case "valid":
 					sig = chain.EthSign(key, bz)
 				case "garbage":
@@ -394,6 +403,7 @@ func TestC06_StoredSignaturesAlwaysValid(t *testing.T) {
 				if oks[0] {
 					v.EthKeys[c06Chain] = nk
 					freedKeys = append(freedKeys, old)
+					retiredKeys[i] = append(retiredKeys[i], old)
 				}
 				checkAll(t)
 			},
